@@ -25,6 +25,7 @@ import (
 	"github.com/grafana/dskit/kv"
 	shardUtil "github.com/grafana/dskit/ring/shard"
 	"github.com/grafana/dskit/services"
+	"github.com/grafana/dskit/verifhook"
 )
 
 const (
@@ -430,6 +431,7 @@ func (r *Ring) updateRingState(ringDesc *Desc) {
 	ringDesc.setInstanceIDs()
 
 	rc := prevRing.RingCompare(ringDesc)
+	verifhook.Point("ring.updateRingState.classified")
 	if rc == Equal || rc == EqualButStatesAndTimestamps {
 		// No need to update tokens or zones. Only states and timestamps
 		// have changed. (If Equal, nothing has changed, but that doesn't happen
@@ -954,6 +956,7 @@ func (r *Ring) ShuffleShard(identifier string, size int) ReadRing {
 	} else {
 		result = r.shuffleShard(identifier, size, 0, time.Now())
 	}
+	verifhook.Point("ring.ShuffleShard.computed")
 	// Only cache subring if it is different from this ring, to avoid deadlocks in getCachedShuffledSubring,
 	// when we update the cached ring.
 	if result != r {
@@ -984,6 +987,7 @@ func (r *Ring) ShuffleShardWithLookback(identifier string, size int, lookbackPer
 	} else {
 		result = r.shuffleShard(identifier, size, lookbackPeriod, now)
 	}
+	verifhook.Point("ring.ShuffleShardWithLookback.computed")
 
 	if result != r {
 		r.setCachedShuffledSubringWithLookback(identifier, size, lookbackPeriod, now, result)
